@@ -35,6 +35,7 @@ Fixpoint assigned (st : stmt) : list var :=
   | SAssign x _ => [x]
   | SCall _ (Some x) _ _ => [x]
   | SConv x _ _ => [x]
+  | SConvI x _ _ _ => [x]
   | SCall2 _ x xe _ _ => match x with Some y => [y] | None => [] end ++ match xe with Some y => [y] | None => [] end
   | SCallI _ _ (Some x) _ _ _ _ => [x]
   | _ => []
@@ -80,6 +81,7 @@ Fixpoint stmt_prot (st : stmt) (P : pset) : option pset * bool :=
       let P1 := match x with Some y => premove y P | None => P end in
       (Some (match xe with Some y => premove y P1 | None => P1 end), true)
   | SConv x _ _ => (Some (x :: P), true)
+  | SConvI x y _ _ => (Some (if pmem y P then x :: P else premove x P), true)
   | SCallI _ _ x xi _ _ _ => (Some (match x with Some y => premove y P | None => P end), pmem xi P)
   end.
 
